@@ -321,15 +321,7 @@ func (w *ammWorld) step() {
 		if rng.Chance(1, 6) {
 			minR = rng.Amount(60)
 		}
-		w.tx(fmt.Sprintf("swap %s %s %s %s %s", u, sent, recv, amt, minR), "swap."+map[bool]string{true: "double", false: "single"}[sent != "rowan" && recv != "rowan"], func(ctx sdk.Context) (string, error) {
-			before := w.app.BankKeeper.GetBalance(ctx, u, recv).Amount
-			_, err := w.srv.Swap(sdk.WrapSDKContext(ctx), &clptypes.MsgSwap{Signer: u.String(), SentAsset: asset(sent), ReceivedAsset: asset(recv), SentAmount: uintOf(amt), MinReceivingAmount: uintOf(minR)})
-			if err != nil {
-				return "", err
-			}
-			after := w.app.BankKeeper.GetBalance(ctx, u, recv).Amount
-			return after.Sub(before).String(), nil
-		})
+		w.opSwap(u, sent, recv, amt, minR)
 	case c < 80: // rewards bucket funding
 		d := w.denoms[rng.Intn(len(w.denoms))]
 		amt := rng.Amount(80)
@@ -480,15 +472,56 @@ func (w *ammWorld) opBucket(u sdk.AccAddress, d string, amt *big.Int) {
 	})
 }
 
+// bankSnapshot returns the balance of every known account in every known denomination.
+func (w *ammWorld) bankSnapshot(ctx sdk.Context) map[string]string {
+	m := map[string]string{}
+	accts := []string{"clp"}
+	addrs := []sdk.AccAddress{clptypes.GetCLPModuleAddress()}
+	for _, u := range w.users {
+		accts = append(accts, u.String())
+		addrs = append(addrs, u)
+	}
+	for i, a := range addrs {
+		for _, d := range w.denoms {
+			m[accts[i]+" "+d] = w.app.BankKeeper.GetBalance(ctx, a, d).Amount.String()
+		}
+	}
+	return m
+}
+
 func (w *ammWorld) opSwap(u sdk.AccAddress, sent, recv string, amt, minR *big.Int) {
-	w.tx(fmt.Sprintf("swap %s %s %s %s %s", u, sent, recv, amt, minR), "swap", func(ctx sdk.Context) (string, error) {
+	class := "swap.single"
+	if sent != "rowan" && recv != "rowan" {
+		class = "swap.double"
+	}
+	var settle string
+	w.tx(fmt.Sprintf("swap %s %s %s %s %s", u, sent, recv, amt, minR), class, func(ctx sdk.Context) (string, error) {
+		snap := w.bankSnapshot(ctx)
 		before := w.app.BankKeeper.GetBalance(ctx, u, recv).Amount
 		_, err := w.srv.Swap(sdk.WrapSDKContext(ctx), &clptypes.MsgSwap{Signer: u.String(), SentAsset: asset(sent), ReceivedAsset: asset(recv), SentAmount: uintOf(amt), MinReceivingAmount: uintOf(minR)})
 		if err != nil {
 			return "", err
 		}
-		return w.app.BankKeeper.GetBalance(ctx, u, recv).Amount.Sub(before).String(), nil
+		y := w.app.BankKeeper.GetBalance(ctx, u, recv).Amount.Sub(before).String()
+		after := w.bankSnapshot(ctx)
+		keys := make([]string, 0, len(snap))
+		for k := range snap {
+			keys = append(keys, k)
+		}
+		sort.Strings(keys)
+		var sb strings.Builder
+		for _, k := range keys {
+			if snap[k] != after[k] {
+				fmt.Fprintf(&sb, " %s %s %s", k, snap[k], after[k])
+			}
+		}
+		settle = fmt.Sprintf("chk c03.settle tag=%s.settle %s %s %s %s %s %s%s", class, u, sent, recv, amt, minR, y, sb.String())
+		return y, nil
 	})
+	if settle != "" {
+		// the implementation's own balance changes, judged by Spec.C03.settleOK
+		w.out.Emit(settle, "true", "chk.settle", false)
+	}
 }
 
 func (w *ammWorld) opDecom(sym string) {
